@@ -44,7 +44,7 @@ Frame(S, name, body, P) ==
 
 GlobalNames(S) == { S.globals[i].name : i \in DOMAIN S.globals }
 StInit(S) == [ stack |-> << >>, marks |-> [ g \in GlobalNames(S) |-> {} ], visited |-> {},
-               walks |-> 0, ei |-> 0, stage |-> "" ]
+               walks |-> 0, ei |-> 0, stage |-> "", log |-> << >> ]
 
 Top(st) == st.stack[Len(st.stack)]
 SetTop(st, f) == [ st EXCEPT !.stack = [ st.stack EXCEPT ![Len(st.stack)] = f ] ]
@@ -75,12 +75,12 @@ WalkCallee(S, st, P) ==
       f2 == IF f.todoB # << >> THEN [f EXCEPT !.todoB = Tail(f.todoB)] ELSE [f EXCEPT !.todoA = Tail(f.todoA)]
       st2 == SetTop(st, f2)
   IN Settle([ st2 EXCEPT !.stack = Append(st2.stack, Frame(S, c, Fn(S, c).body, P)),
-                         !.visited = st2.visited \cup {c}, !.walks = st2.walks + 1 ], P)
+                         !.visited = st2.visited \cup {c}, !.walks = st2.walks + 1, !.log = Append(st2.log, c) ], P)
 
 StartEntry(S, st, P) ==
   LET e == S.entries[st.ei + 1]
   IN Settle([ st EXCEPT !.ei = st.ei + 1, !.stage = StageName(e.stage), !.visited = {},
-                        !.stack = << Frame(S, e.name, e.body, P) >>, !.walks = st.walks + 1 ], P)
+                        !.stack = << Frame(S, e.name, e.body, P) >>, !.walks = st.walks + 1, !.log = Append(st.log, e.name) ], P)
 
 CanStart(S, st) == st.stack = << >> /\ st.ei < Len(S.entries)
 CanWalk(st) == st.stack # << >>
